@@ -1,6 +1,7 @@
 # Copyright (c) 2023 Graphcore Ltd. All rights reserved.
 
 import logging
+import operator
 from inspect import signature
 from operator import getitem
 from types import BuiltinFunctionType
@@ -130,6 +131,10 @@ def unit_scaling_backend(
                     target_fn = U.torch_map[node.target]
                     logger.info("unit scaling function: %s", node)
                     replace_node_with_function(graph, node, target_fn)
+                elif node.target is operator.matmul:
+                    # `a @ b` is traced as the inbuilt operator, not as torch.matmul
+                    logger.info("unit scaling function: %s", node)
+                    replace_node_with_function(graph, node, U.matmul)
 
         # Add metadata denoting the dependencies of every node in the graph
         _add_dependency_meta(graph)
